@@ -256,9 +256,42 @@ def check_after(prop, f, m, snap, opinfo, changed_child_ids):
     return None
 
 
+def repeated_props(m):
+    return [n for n, k in props(type(m)) if (k.startswith('repeated_') and k.endswith('_property'))]
+
+
+def touch_views(f):
+    """materialise every cached view (their index tables are then kept up to date by notifications, which is what C10 is about)"""
+    for m in tree_models(f):
+        for n in repeated_props(m):
+            try: len(getattr(m, n))
+            except Exception: pass
+
+
+def views_consistent(m):
+    """every cached view of m against the same view of a deep copy of m (which rebuilds all index tables from scratch)"""
+    try:
+        c = copy.deepcopy(m)
+    except Exception as e:
+        return f'deepcopy failed: {type(e).__name__}: {e}'
+    for n in repeated_props(m):
+        try:
+            a, b = getattr(m, n), getattr(c, n)
+            if is_mapping(a):
+                la, lb = list(a.items()), list(b.items())
+            else:
+                la, lb = list(a), list(b)
+        except Exception as e:
+            return f'C10: reading view {type(m).__name__}.{n} raised {type(e).__name__}: {e}'
+        if len(la) != len(lb) or any(not (x == y) for x, y in zip(la, lb)):
+            return f'C10: cached view {type(m).__name__}.{n} = {la!r:.200} but recomputed from the raw list it is {lb!r:.200}'
+    return None
+
+
 def run_case(prop, docname, ops):
     text = _DOCS[docname]
     f = parse(text)
+    touch_views(f)
     for step, op in enumerate(ops):
         ms = tree_models(f)
         if op[0] >= len(ms): return None, 'skip'
@@ -284,6 +317,7 @@ def run_case(prop, docname, ops):
             return None, 'refused'
         changed = {id(c) for c in tree.real_children(m)} ^ old_children
         msg = check_after(prop, f, m, snap, info, changed | {id(c) for c in tree.real_children(m) if id(c) not in old_children})
+        if not msg and prop == 'C10': msg = views_consistent(m)
         if msg: return f'step {step} {op}: {msg}', 'fail'
     return None, 'ok'
 
@@ -320,6 +354,23 @@ def run(prop, tier, seed):
             msg, status = 'driver error: ' + traceback.format_exc()[-600:], 'fail'
         rep.case((name, op), status != 'skip', dict(doc=name, ops=[op]) if rnd.random() < 0.0005 else None)
         if msg: rep.fail(f'{type_name(name, op)}.{classify(op, msg)}', msg, dict(prop=prop, doc=name, ops=[op]))
+    # histories of two operations through two different views of the same model (aliasing views: C10, C03, C06)
+    pair_docs = docs if tier == 'thorough' else [d for d in docs if d[0] in ('mixed-tags-links', 'txn2', 'open3', 'meta-comments-postings', 'custom1', 'document1')]
+    for name, text in pair_docs:
+        f = parse(text)
+        for mi, m in enumerate(tree_models(f)):
+            rp = repeated_props(m)
+            if len(rp) < 2: continue
+            for n1 in rp:
+                for n2 in rp:
+                    if n1 == n2: continue
+                    for a1 in (('ins', 0), ('pop', 0), ('ins', 1)):
+                        for a2 in (('pop', 1), ('setitem', 1), ('pop', -1), ('setitem', 0), ('ins', 1)):
+                            hist = [(mi, n1) + a1, (mi, n2) + a2]
+                            try: msg, status = run_case(prop, name, hist)
+                            except Exception: msg, status = 'driver error: ' + traceback.format_exc()[-600:], 'fail'
+                            rep.case((name, tuple(hist)), status != 'skip')
+                            if msg: rep.fail(f'{type(m).__name__}.{n1}.{a1[0]}+{n2}.{a2[0]}:{classify(hist[1], msg)}', msg, dict(prop=prop, doc=name, ops=hist))
     if tier == 'thorough':
         small = corpus.small_documents()
         singles = list(all_single_ops(small))
